@@ -138,13 +138,57 @@ class SlabSplineWorld(RidgeWorld):
         return out
 
 
+class TouchingWorld(RidgeWorld):
+    """structured world: an area feature whose model's own depth interval touches the feature's interval in exactly one depth (the model starts where the feature ends, ends where
+    it starts, or is itself of zero thickness), or whose local interval shrinks to zero on a polygon edge (max depth listed as 0 / equal to the min depth at two corners); probed at
+    exactly those depths, inside, on the edge and at the corners.  Interval lengths that are zero are where the models divide."""
+    def __init__(self, rng):
+        self.spherical = False
+        self.radius = 6371000
+        self.rng = rng
+        kind = rng.choice(["continental plate", "oceanic plate", "mantle layer"])
+        sq = [[-200e3, -200e3], [200e3, -200e3], [200e3, 200e3], [-200e3, 200e3]]
+        fmin, fmax = rng.choice([0, 20e3]), rng.choice([100e3, 150e3])
+        names = ["linear", "uniform", "adiabatic"] + (["chapman"] if kind == "continental plate" else []) + (["plate model constant age"] if kind == "oceanic plate" else [])
+        mname = rng.choice(names + ["linear", "linear"])
+        how = rng.choice(["model-starts-at-feature-bottom", "model-ends-at-feature-top", "model-of-zero-thickness", "feature-pinches-out"])
+        m = {"model": mname}
+        if mname == "linear":
+            m.update({"top temperature": rng.choice([273, -1]), "bottom temperature": rng.choice([1600, -1])})
+        elif mname == "uniform":
+            m["temperature"] = 1000
+        elif mname == "plate model constant age":
+            m.update({"plate age": 5e7, "top temperature": 273, "bottom temperature": 1600})
+        f = {"model": kind, "name": "t", "coordinates": sq, "min depth": fmin, "max depth": fmax}
+        self.depths = [fmin, fmax]
+        if how == "model-starts-at-feature-bottom":
+            m["min depth"] = fmax; m["max depth"] = fmax + 50e3
+        elif how == "model-ends-at-feature-top":
+            m["min depth"] = 0 if fmin == 0 else fmin - 10e3; m["max depth"] = fmin
+        elif how == "model-of-zero-thickness":
+            z = rng.choice([fmin, 50e3, fmax]); m["min depth"] = z; m["max depth"] = z; self.depths.append(z)
+        else:
+            # the feature's own max depth goes down to its min depth along the edge between the first two corners
+            f["max depth"] = [[fmin, [sq[0], sq[1]]], [fmax, [sq[2], sq[3]]]]
+            m["max depth"] = fmax
+        f["temperature models"] = [m]
+        lower = {"model": "mantle layer", "name": "below", "coordinates": sq, "min depth": 0, "max depth": 300e3, "temperature models": [{"model": "uniform", "temperature": 1500}]}
+        self.w = {"version": "1.1", "force surface temperature": False, "features": ([lower] if rng.random() < 0.5 else []) + [f]}
+        self.sq = sq
+    def probes(self):
+        pts = [[0.0, 0.0], [50e3, -120e3], [0.0, -200e3], [-200e3, -200e3], [200e3, -200e3], [100e3, -200e3], [200e3, 200e3], [0.0, 199999.0]]
+        return [(p, d) for p in pts for d in self.depths + [0.0]]
+
+
 def build_session(rng, decl, tier, wdir, name):
     lines, tags = [], []
     nw = budget(tier, 22, 250)
-    structured = [(sph, model) for sph in (False, True) for model in ("half space model", "plate model")] + ["slab-spline"] * budget(tier, 3, 20)
+    structured = [(sph, model) for sph in (False, True) for model in ("half space model", "plate model")] + ["slab-spline"] * budget(tier, 3, 20) + ["touching"] * budget(tier, 10, 80)
     for wi in range(nw + len(structured)):
         if wi >= nw and structured[wi - nw] == "slab-spline":
             g = SlabSplineWorld(rng)
+        elif wi >= nw and structured[wi - nw] == "touching":
+            g = TouchingWorld(rng)
         elif wi >= nw:
             g = RidgeWorld(rng, *structured[wi - nw])
         elif wi % 3 == 1:
@@ -178,6 +222,9 @@ def build_session(rng, decl, tier, wdir, name):
             else:
                 lines.append(q3("w", p3, d, [(1, 0, 0), (4, 0, 0)]))
             tags.append(tag)
+        if isinstance(g, TouchingWorld):
+            for (sp, d) in g.probes():
+                lines.append(q3("w", g.point3(sp, d), d, [(1, 0, 0), (4, 0, 0)])); tags.append("touching-intervals")
         if isinstance(g, SlabSplineWorld):
             for (sp, d) in g.dense():
                 lines.append(q3("w", g.point3(sp, d), d, [(1, 0, 0), (4, 0, 0)])); tags.append("slab-spline:fore-arc")
